@@ -655,6 +655,13 @@ def defuse(rc):
     from . import shared as _sh
     _sh.defuse_rule(rc, _sh.anchor_files("C12"))
 
+
+@rule("C12.data", "preprocess_data (run in front of every estimator, score and CI test) hands on the caller's values: copy, column-wise value-preserving casts", floor=2)
+def data_(rc):
+    from . import shared as _sh
+    _sh.preprocess_rule(rc)
+
+
 MUTANTS = [
     dict(kind="break", name="oracle-literal-membership-only", file="pgmpy/estimators/CITests.py", expect="C12.oracle",
          old="    if IndependenceAssertion(X, Y, Z) in independencies:\n        return True\n", new="    return IndependenceAssertion(X, Y, Z) in independencies\n"),
